@@ -25,6 +25,7 @@ EXPLANATION = (
     "z*width*height + y*width + x; get_cell reads row `id` positionally and the id -> coordinates lookup reads row id "
     "of the 'pos' column.")
 EXPLANATION += (" Premise: C10's rule that the ids reported by the neighbourhood queries use the cell table's strides. The id polynomial is compared per extent case that the path condition admits.")
+EXPLANATION += (' The deprecated spellings of DiscreteWorld forward every argument unchanged.')
 ASSUMPTIONS = ["pandas positional indexing (iloc / default RangeIndex) semantics", "mixed-radix numbering is a bijection",
                "extents are 0 or >= 1 (quantifier)"]
 
@@ -326,6 +327,8 @@ def run(cx: Cx):
                              f"_get_cell_pos_as_tuple(int) returns {v!r}, not cells['pos'][id]", where=cx.where(gp, p.last.line))
     if not found:
         cx.inconclusive('R-AGREE', '_get_cell_pos_as_tuple', 'no int branch found', where=cx.where(gp), function=gp.qualname)
+    from .common import check_deprecated_aliases_forward
+    check_deprecated_aliases_forward(cx, DW)
     from .common import include_premises
     include_premises(cx, ['C10'], 'ids reported by the neighbourhood queries are cell ids: same strides as the cell table',
                      only=lambda o: 'id-strides' in o.key or 'id form' in o.message)
